@@ -43,7 +43,7 @@ def ulp_diff(a: float, b: float) -> float:
 
 def scenarios(ctx):
     quick = ctx.quick
-    consts = dict(MaxL=5 if quick else 7, MaxCS=3 if quick else 4, Ws="{1, 2, 3}" if quick else "{1, 2, 3, 4}", Pres='{"absent"}', Faults="{0}", Wheres='{"reader"}', Kills='{"none"}', BufSizes="{0, 1, 2, 3}", Deviations="{}")
+    consts = dict(MaxL=5 if quick else 6, MaxCS=3 if quick else 4, Ws="{1, 2, 3}" if quick else "{1, 2, 3, 4}", Pres='{"absent"}', Faults="{0}", Wheres='{"reader"}', Kills='{"none"}', BufSizes="{0, 1, 2, 3}", Deviations="{}")
     res = tlc.run("CreatePipeline", tlc.make_cfg(constants=consts, invariants=["TypeOK", "BufferedOrWritten", "ExactOnSuccess", "FailStop", "PrintDone"], properties=["Termination"]),
                   coverage=True, timeout=1500)
     ctx.add_tlc("CreatePipeline fault-free scenarios, all schedules", res, constants=consts)
